@@ -1,4 +1,5 @@
 #include "gamma.hpp"
+#include <algorithm>
 #include "hooks.hpp"
 
 namespace sim {
@@ -30,6 +31,23 @@ Sigma sigma_of(const Store &st, const std::map<std::string, var_t> &vars,
       s.refs.push_back(ri);
     }
   }
+  // tagged cells reachable through a live reference variable
+  if (heap)
+    for (auto &rk : vars) {
+      const Value *rv = st.get(rk.second);
+      if (!rv || rv->k != Value::RGN || !rv->rgn)
+        continue;
+      for (auto &pk : vars) {
+        const Value *pv = st.get(pk.second);
+        if (!pv || pv->k != Value::REF || pv->obj == 0 || (*heap)[pv->obj].freed)
+          continue;
+        auto it = rv->rgn->cells.find(pv->i);
+        if (it == rv->rgn->cells.end() || !it->second.tags || it->second.tags->empty())
+          continue;
+        Sigma::TagInfo ti{rk.second, pk.second, *it->second.tags};
+        s.tags.push_back(ti);
+      }
+    }
   return s;
 }
 
@@ -254,6 +272,20 @@ GammaResult in_gamma(const AbsVal &inv, const Sigma &s, const GammaOpts &o, Gamm
                                           std::to_string(ri.site) + " not in reported set");
         }
       }
+    }
+  }
+  if (o.refs && !s.tags.empty()) {
+    AbsVal::P c = inv.clone();
+    for (auto &ti : s.tags) {
+      std::vector<uint64_t> reported;
+      if (!c->get_tags(ti.rgn, ti.ref, reported))
+        continue; // no answer (analysis off, or top)
+      hooks().tag_checks++;
+      for (int t : ti.tags)
+        if (std::find(reported.begin(), reported.end(), (uint64_t)t) == reported.end())
+          return fail("tags", "the cell " + ti.ref.name().str() + " points to in region " +
+                                  ti.rgn.name().str() + " carries tag " + std::to_string(t) +
+                                  " which is not in the reported set");
     }
   }
   return r;
